@@ -1,6 +1,8 @@
 //! One module per claimed property: workload generator + oracle.
 pub mod c12;
 pub mod c13;
+pub mod c14;
+pub mod c15;
 pub mod c16;
 pub mod c17;
 pub mod c18;
@@ -13,6 +15,8 @@ pub fn by_id(id: &str) -> Option<&'static dyn Property> {
     match id {
         "C12" => Some(&c12::C12),
         "C13" => Some(&c13::C13),
+        "C14" => Some(&c14::C14),
+        "C15" => Some(&c15::C15),
         "C16" => Some(&c16::C16),
         "C17" => Some(&c17::C17),
         "C18" => Some(&c18::C18),
